@@ -30,6 +30,9 @@ func rulesC12(c *Ctx) {
 	// "hedge cancel conditions … any match cancels": every finished attempt is tested against them
 	c.Rule("hedge-attempt")
 	c09Loop(c)
+	// "circuit breakers … alike": what the breaker's executor records is the verdict of the classification just made
+	// (a success recorded through the re-classifying standalone API loses the outcome's error)
+	c04Pairing(c)
 }
 
 // ---- C12.isfailure -------------------------------------------------------------------------------------
@@ -979,6 +982,39 @@ func findTypeOK(p *Path, x *T, iface string) *T {
 	return found
 }
 
+// toExecutorWires: the package's ToExecutor hands the executor's BaseExecutor the policy's own BaseFailurePolicy on
+// every returning path, so BaseExecutor.IsFailure and the policy's BaseFailurePolicy.IsFailure are one classification.
+func toExecutorWires(P *Program, pkg string) (te *ssa.Function, ok bool, trace string) {
+	for _, f := range P.Funcs {
+		if f.Name() == "ToExecutor" && f.Pkg != nil && f.Pkg.Pkg.Name() == pkg && f.Signature.Recv() != nil {
+			te = f
+		}
+	}
+	if te == nil {
+		return nil, false, ""
+	}
+	ev := NewEvaluator(P, EvalConfig{})
+	ok = true
+	recv := ev.Param(te, te.Params[0].Name())
+	n := 0
+	for _, p := range ev.Run(te) {
+		if p.Exit != ExitReturn {
+			continue
+		}
+		n++
+		be := ev.LoadField(p.State, p.Rets[0], "BaseExecutor")
+		bfp := ev.LoadField(p.State, be, "BaseFailurePolicy")
+		if bfp == nil || loadedField(bfp) != "BaseFailurePolicy" || !bfp.Contains(recv) {
+			ok = false
+			trace = pathTrace(ev, p)
+		}
+	}
+	if ev.Err != nil || n == 0 {
+		ok = false
+	}
+	return te, ok, trace
+}
+
 // ---- C12.shared ----------------------------------------------------------------------------------------
 
 // retry, breaker and fallback classify through one and the same BaseFailurePolicy that the builder filled.
@@ -997,29 +1033,13 @@ func c12Shared(c *Ctx) {
 			continue
 		}
 		// ToExecutor wires BaseExecutor.BaseFailurePolicy to the policy's own BaseFailurePolicy
-		var te *ssa.Function
-		for _, f := range c.P.Funcs {
-			if f.Name() == "ToExecutor" && f.Pkg != nil && f.Pkg.Pkg.Name() == pkg && f.Signature.Recv() != nil {
-				te = f
-			}
-		}
+		te, ok, trace := toExecutorWires(c.P, pkg)
 		if te == nil {
 			c.Unresolved(pkg+".ToExecutor", "not found")
 			continue
 		}
-		ev := NewEvaluator(c.P, EvalConfig{})
-		ok := true
-		recv := ev.Param(te, te.Params[0].Name())
-		for _, p := range ev.Run(te) {
-			if p.Exit != ExitReturn {
-				continue
-			}
-			be := ev.LoadField(p.State, p.Rets[0], "BaseExecutor")
-			bfp := ev.LoadField(p.State, be, "BaseFailurePolicy")
-			if bfp == nil || loadedField(bfp) != "BaseFailurePolicy" || !bfp.Contains(recv) {
-				ok = false
-				c.Fail(c.fn(te), c.P.FuncPos(te), "the executor's BaseFailurePolicy is not the policy's own configured BaseFailurePolicy", pathTrace(ev, p))
-			}
+		if !ok {
+			c.Fail(c.fn(te), c.P.FuncPos(te), "the executor's BaseFailurePolicy is not the policy's own configured BaseFailurePolicy", trace)
 		}
 		if ok {
 			c.Ok(pkg+".executor.IsFailure", c.P.FuncPos(te), "slot is BaseExecutor.IsFailure over the policy's own BaseFailurePolicy")
